@@ -12,11 +12,21 @@ all_trees / all_tree_shapes / all_tree_labellings / Tree.count_topologies / Tree
   reference forest to the chosen leaves, suppress unary nodes, relabel by position of the set index and look the
   canonical form up in the position-defined rank table.
 
+Audit pass (lib/AUDIT-BRIEF.md; gap list in lib/props/AUDIT-C15.md): lib/props/c15_ext.py adds the families `life`
+(scripted node life cycles for the incremental counter: internal with set samples below -> absent -> back as a childless
+leaf / internal / root, gaps, moves, breakpoints that leave the set samples alone, delete_intervals / keep_intervals /
+decapitate output), `bigcount` (>= 256 children, depth 300-600, 120-250 trees, 40 x 40 sets, k = 5; chosen by case
+index) and `rforms` (argument forms of unrank / all_trees / all_tree_shapes / all_tree_labellings, the Rank named tuple,
+rank() on trees obtained in eleven ways, leaf ids that are not 0..n-1), a `wide` mode of `big` (root with 255-400
+children) and, on the `count` / `cnt_ms` inputs, the other spellings of sample_sets, of the TopologyCounter key, of the
+way a Tree is obtained and of the way the incremental generator is consumed (list / zip with trees() / results doctored
+between next() calls / two generators interleaved), plus node ids that do not exist (negative aliases of real samples).
+
 EITHER zones (docs silent, accepted both ways, never asserted):
 * the order in which all_tree_shapes yields shapes and the labelling it picks;
 * rank() on trees with unary nodes or non-sample leaves, unrank() with n = 0 or non-integer ranks;
-* count_topologies with an internal sample that is *not* in any sample set, with overlapping sets, with
-  out-of-range node ids;
+* count_topologies with an internal sample that is *not* in any sample set, with overlapping sets; WHICH exception an
+  out-of-range / negative node id raises (that it is refused is documented and asserted, see c15_ext.check_invalid_ids);
 * combinations whose chosen samples sit under different roots have no embedded topology (not counted) — that is
   what "reducing the tree to those samples" gives and the real code agrees on the unchanged tree.
 """
@@ -29,6 +39,7 @@ import tskit
 from lib import gen
 from lib.harness import case_rng
 from lib.model import NODE_IS_SAMPLE, NULL, RowModel, sort_edges_key
+from lib.props import c15_ext
 from lib.tsk import to_ts
 
 ID = "C15"
@@ -228,15 +239,28 @@ def rank_table(n):
 # ------------------------------------------------------------------------------------------- cases
 
 
+# one cycle of the random families; `life`, `rforms` (and `bigcount`, chosen by case index) are in lib/props/c15_ext.py
+CYCLE = ("big", "inv", "tab", "count", "life", "cnt_ms", "count", "life", "rforms")
+BIGCOUNT_MODES = ("wide", "deep", "manytrees", "bigsets")
+
+
 def cases(tier, seed):
     nmax = 6 if tier == "quick" else 7
     yield {"gen": "tiny"}
     for n in range(1, nmax + 1):
         for s in range(A000669[n]):
             yield {"gen": "shape", "n": n, "s": s}
-    nrand = {"quick": 2400, "thorough": 90000}[tier]
+    nrand = {"quick": 3600, "thorough": 135000}[tier]
     for k in range(nrand):
-        yield {"gen": ("big", "inv", "tab", "count", "count", "cnt_ms")[k % 6], "k": k}
+        g = CYCLE[k % 9]
+        c = {"gen": g, "k": k}
+        # structurally extreme instances are chosen by the CASE INDEX (never left to chance): each bigcount mode once
+        # within the first 36 random cases, then one every 360; a >= 255-children topology for rank/unrank every 450
+        if k % 9 == 4 and (k < 36 or k % 360 == 4):
+            c = {"gen": "bigcount", "k": k, "mode": BIGCOUNT_MODES[(k // 9 if k < 36 else k // 360) % 4]}
+        elif g == "big" and (k // 9) % 50 == 1:
+            c["mode"] = "wide"
+        yield c
         if k == 40:
             # the long sequential walks are started early enough to finish inside the budget
             for n in range(1, nmax + 1):
@@ -247,7 +271,8 @@ def run_case(case, ctx):
     g = case["gen"]
     ctx.feature("gen:" + g)
     {"tiny": run_tiny, "walk": run_walk, "shape": run_shape, "big": run_big, "inv": run_inv,
-     "tab": run_tab, "count": run_count, "cnt_ms": run_count}[g](case, ctx)
+     "tab": run_tab, "count": run_count, "cnt_ms": run_count, "life": c15_ext.run_life,
+     "bigcount": c15_ext.run_bigcount, "rforms": c15_ext.run_rforms}[g](case, ctx)
 
 
 def run_tiny(case, ctx):
@@ -431,7 +456,8 @@ def run_big(case, ctx):
     ranks for n <= 15/16, low shape ranks or root-capped random topologies (subtrees <= 12/13 leaves, n <= 28/32)."""
     rng = case_rng(case)
     tier = case["tier"]
-    mode = rng.choice(["uniform", "uniform", "low", "topo", "topo", "groups", "groups", "biggroups"])
+    mode = case.get("mode") or rng.choice(["uniform", "uniform", "low", "topo", "topo", "groups", "groups",
+                                          "biggroups"])
     umax = 15 if tier == "quick" else 16
     cap = 12 if tier == "quick" else 13
     ctx.feature("big:" + mode)
@@ -452,10 +478,15 @@ def run_big(case, ctx):
         elif mode == "biggroups":
             par, n = big_grouped_topology(rng)
             ctx.feature(f"biggroups:labellings-2^{(math.factorial(n) // aut(shape_of(canon(_kids_of(par), _root_of(par))))).bit_length() - 1}")
+        elif mode == "wide":
+            # a root with 255-400 children (leaves + a few cherries / 3-stars): case index, see cases()
+            par, n = c15_ext.wide_topology(rng)
+            ctx.feature(f"wide:root-children={len(_kids_of(par)[_root_of(par)])}")
         else:
             n = rng.randint(umax + 1, 28 if tier == "quick" else 32)
             par = random_topology(rng, n, n, cap=cap)
-        S = ref_num_shapes(n)
+        # the number of shapes is not needed (and costly) for the wide instances: no upper bound asserted there
+        S = ref_num_shapes(n) if mode != "wide" else float("inf")
         ts, m = rebuild(rng, [(par, n)], n)
         _, kids = forest_of(ts, 0)
         root = [u for u in kids if u not in forest_of(ts, 0)[0]][0]
@@ -1030,6 +1061,13 @@ def run_count(case, ctx):
                 ctx.count("count-topologies-incremental:trees")
                 if not compare(tc, i, "TreeSequence.count_topologies (incremental)"):
                     break
+    # audit: the same expectation through the other argument forms / tree sources / consumption styles (c15_ext)
+    rng2 = case_rng(case, "ext")
+    if per_tree_ok and rng2.random() < (0.6 if case["gen"] == "count" else 0.35):
+        c15_ext.check_counts(ctx, rng2, ts, m, sets, {"model": m.to_json()}, "count", expected=expected,
+                             default_ok=(style == "by-pop"))
+        if rng2.random() < 0.15:
+            c15_ext.check_invalid_ids(ctx, rng2, ts, c15_ext.View(ts), sets, detail, "count")
     # documented rejections
     r = rng.random()
     nonsamples = [u for u in range(m.num_nodes) if u not in samples]
